@@ -299,6 +299,10 @@ class IRContext:
             and arr.dtype != np.float64
         ):
             return arr.astype(np.float64, copy=False)
+        if not self.builder.enable_double_precision and arr.dtype == np.float64:
+            # A float64 array captured from an x64 session must not put a DOUBLE
+            # tensor into a single-precision export.
+            return arr.astype(np.float32)
         return arr
 
     def fresh_name(self, base: str) -> str:
